@@ -7,7 +7,7 @@ CFG = dict(
                '(final state = sequential fold) and with a syntax error injected at every position (state unchanged, request rejected).',
     level_note='Trusted: as C27. Runtime errors that abort a program after earlier lines ran (e.g. a reserved session-rule name) are outside the property (it is about parse failures) and are not generated.',
     technique='Coq proof over the model of the parse-all-first validation and the execution loop + differential correspondence with Handler::execute_program',
-    bin='c30', n_quick=450, n_thorough=6000,
+    bin='c30', n_quick=450, n_thorough=2250,
     corr_name='Model/HandlerAuth.v (query_program / handle) vs Handler::execute_program',
     rule='generated programs of 1-6 statements (as C27, 50% admin so that most run) each executed as is and with one of 12 malformed statements injected at every position '
          '(incl. before comments / continuation lines); non-trivial = multi-statement program rejected for its syntax error, or executed with a visible effect; distinct by identity, role map and program text',
